@@ -664,7 +664,7 @@ def _lines(ctx):
     ctx.ob("C09.lines", one, "parameter `statement` never rebound", not rebinds, "" if not rebinds else "`statement` is rebound: node value is no longer the scanner's chunk", line=one.node.lineno)
     # every return builds its node with **common_kwargs
     rets = [n for n in iter_own(one.node) if isinstance(n, ast.Return)]
-    ctx.need(len(rets) >= 3, "cst_parse_one_node returns vanished")
+    ctx.need(len(rets) >= 1, "cst_parse_one_node returns vanished")
     for r in rets:
         c = r.value
         ok = (
